@@ -91,6 +91,7 @@ HARMLESS = [
     ('C04', 'sc3/synth/synthdef.py', "                        index = cn.index\n                        for i, val in enumerate(values):\n                            varcontrols[index + i] = val", "                        first = cn.index\n                        for i, val in enumerate(values):\n                            varcontrols[first + i] = val", 'local renamed in the variant writer'),
     ('C08', 'sc3/base/clock.py', "        with cls._tick_cond:\n            cls._run_sched = False\n            cls._tick_cond.notify()\n        cls._thread.join()", "        with cls._tick_cond:\n            cls._tick_cond.notify_all()\n            cls._run_sched = False\n        cls._thread.join()", 'AppClock._stop: flag and notification exchanged inside the critical section'),
     ('C11', 'sc3/base/stream.py', "                clock = clock or self._clock\n                clock.play(self, quant)", "                where = clock or self._clock\n                where.play(self, quant)", 'local renamed in Routine.resume'),
+    ('C16', 'sc3/synth/_engine.py', "            if block in self._freed[block.size]:\n                self._freed[block.size].remove(block)\n            if not self._freed[block.size]:\n                del self._freed[block.size]", "            blocks = self._freed[block.size]\n            if block in blocks:\n                blocks.remove(block)\n            if not blocks:\n                del self._freed[block.size]", 'local for the set in _remove_from_freed'),
 ]
 
 BREAKING = [
@@ -191,6 +192,10 @@ BREAKING = [
     ('C08', 'sc3/base/clock.py', "            cls._sched_cond.notify_all()\n        cls._thread.join()", "            cls._sched_cond.notify_all()\n            cls._thread.join()", 'SystemClock._sched_stop joins the thread while holding its lock'),
     ('C08', 'sc3/base/clock.py', "    def clear(self):\n        while not self.queue.empty():", "    def clear(self):\n        if not self.queue.empty():", 'Scheduler.clear pops one entry only'),
     ('C11', 'sc3/base/stream.py', "            if self.state == self.State.Paused:\n                self.state = self.State.Suspended\n                clock = clock", "            if self.state != self.State.Done:\n                self.state = self.State.Suspended\n                clock = clock", 'resume() revives routines that were not paused'),
+    ('C16', 'sc3/synth/_engine.py', "            return self._reserve(block.start, n, block).start\n        else:\n            return None", "            return self._reserve(block.start, n).start\n        else:\n            return None", 'alloc reserves without the block it found'),
+    ('C16', 'sc3/synth/_engine.py', "                avail_block, addr - avail_block.start, False)[1]", "                avail_block, addr - avail_block.start, True)[1]", '_reserve marks the gap below the address as in use'),
+    ('C16', 'sc3/synth/_engine.py', "            if not self._freed[block.size]:\n                del self._freed[block.size]", "            if self._freed[block.size]:\n                del self._freed[block.size]", 'free list of a size dropped while blocks remain in it'),
+    ('C16', 'sc3/synth/_engine.py', "        self._array[pos] = ContiguousBlock(shifted_pos, size - pos)", "        self._array[pos] = ContiguousBlock(shifted_pos, size)", 'initial free block reaches beyond the partition'),
 ]
 
 
